@@ -761,6 +761,25 @@ def num_to_string(ex, kind, v):
             if same is not None:
                 ex.add_axiom(same == z3bool(S.s_eq(s, s2)))
         allk.append((kind, t, s))
+        # exact renderings of a few common values (known a priori), and the set they form
+        if kind == 'f64':
+            vals = [(0.0, b'0'), (1.0, b'1'), (2.0, b'2'), (-1.0, b'-1'), (1.5, b'1.5'), (0.5, b'0.5'), (10.0, b'10')]
+            inset = []
+            for fv, txt in vals:
+                if len(txt) <= cap:
+                    c = z3.fpToIEEEBV(t) == z3.fpToIEEEBV(z3.FPVal(fv, z3.Float64()))
+                    ex.add_axiom(z3.Implies(c, z3bool(S.s_eq(s, txt))))
+                    inset.append(c)
+        else:
+            cand = [0, 1, 2, 3, 4, 5, 7, 9, 10, 12, 42, 80, 99, 100, 404, -1, -2, -10] if kind == 'i64' else [0, 1, 2, 3, 4, 5, 7, 9, 10, 12, 42, 80, 99, 100, 404]
+            inset = []
+            for iv in cand:
+                txt = str(iv).encode()
+                if len(txt) <= cap:
+                    c = t == z3.BitVecVal(iv, 64)
+                    ex.add_axiom(z3.Implies(c, z3bool(S.s_eq(s, txt))))
+                    inset.append(c)
+        ex.uni.memo.setdefault(('num_str_exact',), []).append(z3.Or(*inset) if inset else z3.BoolVal(False))
     return StrV(s)
 
 
